@@ -154,6 +154,7 @@ def _decode_struct(buffer: "_Buffer", fcp: "ref:FcpV2", name: "str") -> "dyn":
                     and starts_struct(fcp, name, buffer.gbits, old(buffer.bitaddr), v),
                     result == v and buffer.bitaddr == old(buffer.bitaddr) + len(wire_struct(fcp, name, v))))
     ghost_arg("_decode", v=dyn_get(v, field.name))
+    option("no_unfold", ["conforms", "starts", "wire"])
     option("loop0_locals", {"data": "dyn"})
     loop(0, over="sorted(struct.fields, key=lambda field: field.field_id)",
          invariant=lambda it: buffer.bitaddr >= old(buffer.bitaddr) and d_is_dict(data) and implies(
@@ -179,3 +180,22 @@ def _decode(buffer: "_Buffer", fcp: "ref:FcpV2", type: "ref:Type") -> "dyn":
     ghost_arg("_decode_array", v=v)
     ghost_arg("_decode_dynamic_array", v=v)
     ghost_arg("_decode_optional", v=v)
+
+
+@contract("fcp.serde:_Buffer.push_bytes")
+def push_bytes(self: "_Buffer", bytes: "arr"):
+    note("only used by decode() to load the input into an empty buffer")
+    requires(arr_len(self.buffer) == 0 and len(self.gbits) == 0 and bytes_ok(bytes))
+    modifies(self.buffer, self.gbits)
+    ghost_set(self.gbits, bits_of_bytes(bytes))
+    ensures(self.buffer == bytes and self.gbits == bits_of_bytes(bytes))
+
+
+@contract("fcp.serde:decode")
+def decode(fcp: "ref:FcpV2", name: "str", data: "arr") -> "dyn":
+    fresh("v", "dyn")
+    requires(wf_struct(fcp, name) and bytes_ok(data))
+    may_raise(Exception)
+    no_raise_if(conforms_struct(fcp, name, v) and starts_struct(fcp, name, bits_of_bytes(data), 0, v))
+    ensures(implies(conforms_struct(fcp, name, v) and starts_struct(fcp, name, bits_of_bytes(data), 0, v), result == v))
+    ghost_arg("_decode_struct", v=v)
